@@ -21,7 +21,7 @@ ID = "C18"
 FINDING_ID = "K-C18-subsecond-record-timestamps"
 RULE = (
     "batches are produced by the reference encoder kv.refbatch.encode_batch from Hypothesis-generated wire-level "
-    "batches (1-5 records, int64 base offset with int32 deltas, record timestamps anywhere in [epoch, 9999-12-31], "
+    "batches (0-5 records, int64 base offset with int32 deltas, record timestamps anywhere in [epoch, 9999-12-31], "
     "null/empty/non-empty keys, values and headers, all header fields over their full ranges), plus the four "
     "real-broker batches of tests/records/fixtures.py; each batch (<= ~300 bytes) is read (a) intact: header fields and "
     "records must equal the encoded ones and write_batch(read_batch(b)) == b; (b) with EVERY single-bit flip from byte "
@@ -38,7 +38,7 @@ def _blob(maxlen=10):
 
 @st.composite
 def wire_batches(draw, subsecond: bool):
-    n = draw(st.sampled_from([1, 1, 2, 3, 5]))
+    n = draw(st.sampled_from([0, 1, 1, 2, 3, 5]))  # 0: empty batches are well-formed (brokers keep them after compaction)
     base_offset = draw(st.one_of(st.sampled_from([0, 1, 2**40, 2**63 - 1 - 2**31, -(2**63) + 2**31]),
                                  st.integers(-(2**63) + 2**31, 2**63 - 1 - 2**31)))
     base_ts = draw(st.one_of(st.sampled_from([0, 999, 1000, 1503229838908, 2**41 + 7, TS_MAX_MS]), st.integers(0, TS_MAX_MS)))
@@ -67,7 +67,7 @@ def wire_batches(draw, subsecond: bool):
         attributes=draw(int_strategy(-(2**15), 2**15 - 1)),
         last_offset_delta=draw(int_strategy(-(2**31), 2**31 - 1)),
         base_timestamp=base_ts,
-        max_timestamp=max(tss) + draw(st.sampled_from([0, 0, 1, 1000, 10**6])),
+        max_timestamp=(max(tss) if tss else draw(st.sampled_from([-1, 0, base_ts]))) + draw(st.sampled_from([0, 0, 1, 1000, 10**6])),
         producer_id=draw(int_strategy(-(2**63), 2**63 - 1)),
         producer_epoch=draw(int_strategy(-(2**15), 2**15 - 1)),
         base_sequence=draw(int_strategy(-(2**31), 2**31 - 1)),
